@@ -63,6 +63,25 @@ def o_oer_length(n):
     b = n.to_bytes((n.bit_length() + 7) // 8, "big")
     return bytes([0x80 | len(b)]) + b
 
+OER_INT_KINDS = [(0, 0), (0, 1), (1, 0), (1, 1), (2, 0), (2, 1), (4, 0), (4, 1), (8, 0), (8, 1)]
+
+def twos_min(z):
+    """X.690 8.3: minimal two's complement octets"""
+    n = 1
+    while not (-(1 << (8 * n - 1)) <= z < (1 << (8 * n - 1))): n += 1
+    return z.to_bytes(n, "big", signed=True)
+
+def twos_val(b): return int.from_bytes(b, "big", signed=True) if b else 0
+
+def o_oer_int(w, pos, z):
+    """X.696 10: fixed-size unsigned / signed (1, 2, 4, 8 octets), else length + minimal octets; None = not encodable"""
+    if pos and z < 0: return None
+    if w:
+        if pos: return z.to_bytes(w, "big") if z < (1 << (8 * w)) else None
+        return z.to_bytes(w, "big", signed=True) if -(1 << (8 * w - 1)) <= z < (1 << (8 * w - 1)) else None
+    body = min_octets(z) if pos else twos_min(z)
+    return o_oer_length(len(body)) + body
+
 def bits_of_bytes(b, nbits=None):
     s = "".join(format(x, "08b") for x in b)
     return s if nbits is None else s[:nbits]
@@ -255,6 +274,35 @@ def gen_lines(ctx, expect=None):
             if b0 >= 0x80 and k:
                 for cut in {1, 1 + k // 2, k}:
                     L.append(f"oer_len_get {hx(full[:cut])}")
+    # ---- INTEGER_oer.c width logic
+    zs = set()
+    for k in range(0, 66):
+        for d in (-1, 0, 1):
+            zs.add((1 << k) + d); zs.add(-(1 << k) + d)
+    for _ in range(40 if ctx.quick else 3000): zs.add(rng.getrandbits(rng.choice([7, 8, 15, 16, 31, 32, 63, 64, 70])) * rng.choice([1, -1]))
+    for z in sorted(zs):
+        content = twos_min(z)
+        for w, pos in OER_INT_KINDS:
+            if ctx.quick and (z + w + pos) % 2 and abs(z) > 70000: continue
+            for pad in (0, 1, 3):
+                if pad and (z % 3): continue
+                c = (b"\xff" if z < 0 else b"\x00") * pad + content
+                L.append(f"int_oer_enc {w} {pos} {hx(c)}")
+            e = o_oer_int(w, pos, z)
+            if e is not None:
+                l = f"int_oer_dec {w} {pos} {hx(e + bytes(rng.getrandbits(8) for _ in range(rng.choice([0, 1, 3]))))}"
+                L.append(l); expect[l] = (z, len(e))
+                for cut in {0, 1, len(e) - 1}:
+                    if 0 <= cut < len(e): L.append(f"int_oer_dec {w} {pos} {hx(e[:cut])}")
+    L.append("int_oer_dec 0 1 00")          # F5 witness: zero length at the very end, unsigned
+    L.append("int_oer_dec 0 1 8100"); L.append("int_oer_dec 0 1 80")
+    for w, pos in OER_INT_KINDS:
+        L.append(f"int_oer_enc {w} {pos} -")
+        for _ in range(60 if ctx.quick else 3000):
+            raw = bytes(rng.getrandbits(8) for _ in range(rng.randrange(0, 12)))
+            if raw and rng.random() < 0.5: raw = bytes([rng.choice([0, 1, 2, 8, 9, 0x7f, 0x80, 0x81, 0x82, 0x88, 0x89])]) + raw[1:]
+            L.append(f"int_oer_dec {w} {pos} {hx(raw)}")
+            L.append(f"int_oer_enc {w} {pos} {hx(raw)}")
     # ---- the callers' length loops on the real OCTET STRING UPER codec
     big = [0, 1, 2, 127, 128, 129, 16383, 16384, 16385, 32768, 49152, 65535, 65536, 65537]
     if not ctx.quick: big += [32767, 49151, 49153, 81919, 81920, 81921, 98304, 131072, 131073, 147456, 200000]
@@ -385,6 +433,27 @@ def p_leg(ctx, drv, lines, couts, expect):
             if c.startswith("ok "):
                 size = 0 if t[1] == "-" else 4 * len(t[1])
                 if int(c.split()[2]) > size - int(t[2]): fails.append((l[:80], c[:80], "consumed more bits than available", None))
+        elif op == "int_oer_enc":
+            n_cases += 1
+            w, pos = int(t[1]), int(t[2])
+            content = unhx(t[3])
+            if content:
+                z = twos_val(content)
+                e = o_oer_int(w, pos, z)
+                exp = hx(e) if e is not None else "fail"
+                if c != exp: fails.append((l, c, f"X.696 10 expects {exp} for value {z}", None))
+            elif c != "fail": fails.append((l, c, "empty INTEGER must not be encodable", None))
+        elif op == "int_oer_dec":
+            n_cases += 1
+            size = len(unhx(t[3]))
+            if c == "oob":
+                fails.append((l, c, "INTEGER_decode_oer reads ptr[size] (zero length at the end of the data, positive)", "F5"))
+            elif c.startswith("ok "):
+                _, ch, used = c.split()
+                if int(used) > size: fails.append((l, c, "consumed more octets than available", None))
+                if l in expect and (twos_val(unhx(ch)), int(used)) != expect[l]:
+                    fails.append((l, c, f"expected value {expect[l][0]}, consumed {expect[l][1]}", None))
+            elif l in expect: fails.append((l, c, f"the standard encoding of {expect[l][0]} must be accepted", None))
         elif op == "rawget":
             # C04: every read stays inside [nboff, nbits): position after k reads = nboff + sum of widths <= nbits
             n_cases += 1
@@ -417,6 +486,18 @@ def p_leg(ctx, drv, lines, couts, expect):
                 fails.append(((src + " ; " + l2)[:300], str(c)[:120], f"reader must invert the writer: expected {exp[:120]}", region))
     return fails, n_cases
 
+def category(why):
+    """which property a P failure belongs to ('*' = always reported)"""
+    if why.startswith("crash"): return "*"
+    if ("consumed more" in why or "reads ptr[size]" in why or "beyond nbits" in why or "unexpected outcome" in why):
+        return "C04"
+    if "reader must invert the writer" in why: return "C01"
+    if ("must accept" in why or "must be accepted" in why or why.startswith("expected value") or "read refused" in why):
+        return "C03"
+    return "C02"
+
+RELEVANT = {"C01": {"C01"}, "C02": {"C02", "C01", "C03"}, "C03": {"C03"}, "C04": {"C04"}}
+
 def run(ctx):
     lib = build.build_skel("asan")
     drv = build.build_prog("per_driver", ["per_driver.c", "ops_per.c"], libs=[lib])
@@ -433,12 +514,19 @@ def run(ctx):
         ctx.log(f"per-l1 correspondence: {len(dis)} disagreements, first: {[str(x)[:200] for x in dis[0][1:]]}")
 
     fails, n_cases = p_leg(ctx, drv, lines, couts, expect)
-    ctx.cov["predicate"]["per-l1"] = {"cases": n_cases, "failures": len(fails)}
+    rel = RELEVANT.get(ctx.prop)
+    by_cat = {}
+    for f in fails: by_cat[category(f[2])] = by_cat.get(category(f[2]), 0) + 1
+    if rel is not None:
+        fails = [f for f in fails if category(f[2]) == "*" or category(f[2]) in rel]
+    ctx.cov["predicate"]["per-l1"] = {"cases": n_cases, "failures": len(fails), "failures_by_property_all": by_cat}
     unexplained = []
     for l, c, why, region in fails:
         f = None
         if region == "F29":
             f = ctx.match_finding(lambda f: f["id"] == "F29" or f.get("l1per") == "nsnnwn>=64")
+        elif region == "F5":
+            f = ctx.match_finding(lambda f: f["id"] == "F5")
         elif region == "nslength":
             f = ctx.match_finding(lambda f: f["id"] == "F64" or f.get("l1per") == "nslength>64")
         if not f: unexplained.append((l, c, why))
